@@ -389,6 +389,8 @@ class Interp:
         if c.startswith('"'): return RStr([ord(x) for x in unescape(c[1:-1])])
         if c.startswith('b"'): return ('bytes', unescape_bytes(c[2:-1]))
         if c.startswith("'"): return ord(unescape(c[1:-1]))
+        m = re.match(r'^(?:std::option::|core::option::)?Option::<.*>::None$', c)
+        if m: return Agg('Option', 0, [])
         m = re.match(r'^ZeroSized: \{closure@([^}]*)\}$', c)
         if m: return Closure(m.group(1), [])
         m = re.match(r'^ZeroSized: (.+)$', c)
@@ -1007,6 +1009,13 @@ class Interp:
         if trait == 'FromIterator' and meth == 'from_iter':
             return self.collect(args[0], selfty)
         if trait == 'Hash': return ()
+        if trait == 'Write' and meth in ('write_fmt', 'write_str', 'write_char') and isinstance(gg(args[0]), RString):
+            # fmt::Write for String: write!(s, ..) appends
+            tgt = gg(args[0])
+            if meth == 'write_fmt': tgt.chars.extend(self.render_args(args[1]))
+            elif meth == 'write_str': tgt.chars.extend(gg(args[1]).chars)
+            else: tgt.chars.append(gg(args[1]))
+            return Agg('Result', 0, [()])
         if trait == 'Write' and meth == 'write_fmt' and isinstance(g(args[0]), Formatter):
             g(args[0]).out.extend(self.render_args(args[1])); return Agg('Result', 0, [()])
         # ----- local MIR functions
